@@ -12,7 +12,8 @@ EXPLANATION = (
     "monotone concatenation); (R19.3) span lookup conventions (shared with C02: right-continuous bisection, last span at the right "
     "end); (R19.4) Greville points leave greville() only through a clamp to [kv[0], kv[-1]] (or as span midpoints for p=0); "
     "(R19.5) the derivative spline's knot differences, coefficient differences and new knot vector have matching static lengths; "
-    "(R19.6) mesh/support queries all go through one cached unique() and agree on index conventions.")
+    "(R19.6) mesh/support queries all go through one cached unique() and agree on index conventions; the midpoints inserted by "
+    "the default refine() are computed from the distinct breakpoints (mesh / np.unique), never from the raw knot sequence.")
 DOES_NOT_DECIDE = "floating-point equality of break points; symmetry of __eq__ near its tolerance; values of Greville points"
 TECHNIQUE = "custom AST rules: static-length algebra of array constructors, order-provenance tagging, guard dominance, slice-length algebra"
 
